@@ -13,7 +13,7 @@ package satisfaction
 //@ pred saAccepts(l model.BiasListener, x model.MethodParameters, id string) = typeis(x, satisfactionAddedCriterion)
 
 //@ func (*SatisfactionParameters).with
-//@   property C07
+//@   property C07 C01 C09 C13
 //@   nopanic
 //@   ensures [replaced] result.Params == params && result.Function == s.Function && result.RandomSeed == s.RandomSeed
 //@             && result.CurrentChoice == s.CurrentChoice && result.RandomAlternativesOrdering == s.RandomAlternativesOrdering
@@ -31,7 +31,7 @@ package satisfaction
 // ---- the heuristic's building blocks (C13)
 
 //@ func isGoodEnough
-//@   property C13
+//@   property C13 C01 C09
 //@   ensures [meets_every_threshold] result <==> forall k int :: 0 <= k && k < len(*thresholds) ==> model.signed(alternative, (*thresholds)[k].Criterion) >= model.mult((*thresholds)[k].Criterion) * (*thresholds)[k].Weight
 //@   loop 1 invariant [so_far] forall k int :: 0 <= k && k < iter ==> model.signed(alternative, (*thresholds)[k].Criterion) >= model.mult((*thresholds)[k].Criterion) * (*thresholds)[k].Weight
 
@@ -40,7 +40,7 @@ package satisfaction
 //@   && r.Evaluation.(SatisfactionEvaluation).ThresholdsIndex == level && r.Evaluation.(SatisfactionEvaluation).SatisfiedThresholds == thresholds
 
 //@ func updateResult
-//@   property C13
+//@   property C13 C01 C09
 //@   requires 0 <= resultInsertIndex && resultInsertIndex < len(result) && resultInsertIndex < len(resultIds)
 //@   assigns result, resultIds
 //@   ensures [slot_written] acceptedAt(result[resultInsertIndex], alternative, alternativeValue, *thresholds) && resultIds[resultInsertIndex] == alternative.Id
@@ -50,7 +50,7 @@ package satisfaction
 
 // the fallback thresholds: the worst end of every criterion's range (declared range first, else observed over all known alternatives)
 //@ func weightsSupplier$1
-//@   property C13
+//@   property C13 C01 C09
 //@   ensures [worst_of_declared_range] fresh(result) && forall k int :: 0 <= k && k < len(dmp.Criteria) && dmp.Criteria[k].ValuesRange != nil
 //@             && (forall j int :: k < j && j < len(dmp.Criteria) ==> dmp.Criteria[j].Id != dmp.Criteria[k].Id) ==>
 //@             dmp.Criteria[k].Id in result && result[dmp.Criteria[k].Id] == (dmp.Criteria[k].Type == model.Cost ? dmp.Criteria[k].ValuesRange.Max : dmp.Criteria[k].ValuesRange.Min)
@@ -69,7 +69,7 @@ package satisfaction
 //@      x == current || exists j int :: 0 <= j && j < len(considered) && x == considered[j]
 
 //@ func checkWithinSatisfactionLevels
-//@   property C13 C01
+//@   property C13 C01 C09
 //@   requires [distinct_search_order] distinctIds(considered) && forall j int :: 0 <= j && j < len(considered) ==> considered[j].Id != current.Id
 //@   ensures [every_alternative_once] fresh(result1) && fresh(result2) && len(result1) == 1 + len(considered) && len(result2) == 1 + len(considered)
 //@             && 0 <= result3 && result3 + len(result0) == 1 + len(considered) && distinctIds(result0)
@@ -103,7 +103,7 @@ package satisfaction
 // the alternatives that met no level: appended after the accepted ones, in order, with the index after the last level and
 // the fallback thresholds
 //@ func fillRemainingAlternatives
-//@   property C13 C01
+//@   property C13 C01 C09
 //@   fnparam lowestThresholdSup pure
 //@   requires 0 <= resultInsertIndex && resultInsertIndex + len(leftToChoice) <= len(result) && resultInsertIndex + len(leftToChoice) <= len(resultIds)
 //@   assigns result, resultIds
